@@ -285,7 +285,6 @@ func (s *session) serve() {
 			z.ReqCount[key]++
 		}
 		r := &enc{}
-		var defer0 func() // what has to follow the reply on the wire
 		code := int32(0)
 		hdr := func(c int32) { code = c; r.i32(xid); r.i64(s.visibleZxid()); r.i32(c) }
 		if fc, ok := z.FailNext[key]; ok && op != 11 {
@@ -323,12 +322,12 @@ func (s *session) serve() {
 						}
 					}
 				}
-				hdr(0)
-				defer0 = func() {
-					for _, f := range fire {
-						s.event(f[0].(int32), f[1].(string))
-					}
+				// ZooKeeper processes these watches while it handles the request: the notifications leave
+				// before the reply does (and, when held here, the reply's zxid must not run ahead of them)
+				for _, f := range fire {
+					s.event(f[0].(int32), f[1].(string))
 				}
+				hdr(0)
 			case 3: // exists
 				if n, ok := z.nodes[path]; ok {
 					hdr(0)
@@ -376,9 +375,6 @@ func (s *session) serve() {
 			z.logf("s%d req op=%d %s w=%v -> %d", s.id, op, path, watch, code)
 		}
 		s.send(r.b)
-		if defer0 != nil {
-			defer0()
-		}
 		z.mu.Unlock()
 		if op == -11 {
 			return
